@@ -321,6 +321,10 @@ let () =
                 else fail "oracle:C18:deep-predicate" ("is_supercombinator fails on a term " ^ n ^ " binders deep (512 KiB stack)") line
               end;
               note_nontrivial ("deepsc" ^ kind ^ n)
+          | "metapred" :: [bb; input; ok] ->
+              bump counts "metapred";
+              if ok <> "true" then fail "oracle:C18:large-index" ("a predicate changes when every free index is moved by " ^ bb) line;
+              note_nontrivial ("metapred" ^ bb ^ input)
           | "apporder" :: [n; expected; got] ->
               bump counts "apporder";
               if expected <> got then fail "oracle:C19:app-macro-order" "app! does not apply its operands left to right" line;
